@@ -1,0 +1,86 @@
+//! Verification hooks (cargo feature `verif`, off by default): thin public
+//! wrappers that let an external harness drive two crate-private building
+//! blocks directly. Nothing here is used by the engine itself.
+
+use fxhash::FxBuildHasher;
+use qbice_storage::key_of_set_map::ConcurrentSet;
+
+use super::{
+    database::CompressedBackwardEdgeSet,
+    query_lock_manager::{QueryLock, QueryLockManager},
+};
+use crate::query::QueryID;
+
+/// The per-query lock table with a caller-chosen capacity.
+pub struct LockTable(QueryLockManager);
+
+/// A held per-query lock (released on drop).
+pub struct LockGuard(#[allow(unused)] QueryLock);
+
+impl std::fmt::Debug for LockTable {
+    fn fmt(&self, f: &mut std::fmt::Formatter<'_>) -> std::fmt::Result {
+        f.debug_struct("LockTable").finish_non_exhaustive()
+    }
+}
+
+impl std::fmt::Debug for LockGuard {
+    fn fmt(&self, f: &mut std::fmt::Formatter<'_>) -> std::fmt::Result {
+        f.debug_struct("LockGuard").finish_non_exhaustive()
+    }
+}
+
+impl LockTable {
+    /// Creates a lock table that keeps at most `capacity` idle locks.
+    #[must_use]
+    pub fn new(capacity: u64) -> Self { Self(QueryLockManager::new(capacity)) }
+
+    /// Acquires the shared side of the lock of `query_id`.
+    pub async fn shared(&self, query_id: &QueryID) -> LockGuard {
+        LockGuard(self.0.acquire_shared_lock(query_id).await)
+    }
+
+    /// Acquires the exclusive side of the lock of `query_id`.
+    pub async fn exclusive(&self, query_id: &QueryID) -> LockGuard {
+        LockGuard(self.0.acquire_exclusive_lock(query_id).await)
+    }
+}
+
+/// The tiered container that stores the callers of one query.
+#[derive(Default, Clone)]
+pub struct BackwardEdgeSet(CompressedBackwardEdgeSet<FxBuildHasher>);
+
+impl std::fmt::Debug for BackwardEdgeSet {
+    fn fmt(&self, f: &mut std::fmt::Formatter<'_>) -> std::fmt::Result {
+        f.debug_struct("BackwardEdgeSet").finish_non_exhaustive()
+    }
+}
+
+impl BackwardEdgeSet {
+    /// Creates an empty set.
+    #[must_use]
+    pub fn new() -> Self { Self::default() }
+
+    /// Inserts an element; `true` if it was not present.
+    #[must_use]
+    pub fn insert(&self, element: QueryID) -> bool {
+        self.0.insert_element(element)
+    }
+
+    /// Removes an element; `true` if it was present.
+    #[must_use]
+    pub fn remove(&self, element: &QueryID) -> bool {
+        self.0.remove_element(element)
+    }
+
+    /// Number of elements.
+    #[must_use]
+    pub fn len(&self) -> usize { self.0.len() }
+
+    /// Whether the set is empty.
+    #[must_use]
+    pub fn is_empty(&self) -> bool { self.0.len() == 0 }
+
+    /// All elements currently in the set.
+    #[must_use]
+    pub fn elements(&self) -> Vec<QueryID> { self.0.iter().collect() }
+}
